@@ -20,6 +20,9 @@ type OSProfile struct {
 	LateCreate   bool   // some sets are created by user operations during the run
 	NeverReady   bool   // some workloads never become ready / stay stale
 	NoForge      bool   // third parties never forge ownership by one of the generated sets
+	CompletePrev bool   // every set names all earlier sets as previous (no contested objects)
+	AllLate      bool   // every set but the first is created by its own user operation
+	DriftOnly    bool   // the intruder only edits managed fields, deletes, and blocks deletion (C10)
 }
 
 const (
@@ -138,6 +141,9 @@ func GenOS(w *World, prof OSProfile) *Scenario {
 		var maxPrev int64
 		if i > 0 {
 			mode := s.Weighted([]int{6, 2, 1}, "previous-mode") // complete, partial, empty
+			if prof.CompletePrev {
+				mode = 0
+			}
 			for j := 0; j < i; j++ {
 				take := mode == 0 || (mode == 1 && s.Bool("prev-take"))
 				if take {
@@ -179,7 +185,7 @@ func GenOS(w *World, prof OSProfile) *Scenario {
 	// creation: at setup or later
 	for i, o := range specs {
 		o := o
-		late := prof.LateCreate && i > 0 && s.Chance(1, 2, "late-create")
+		late := prof.LateCreate && i > 0 && (prof.AllLate || s.Chance(1, 2, "late-create"))
 		if late {
 			sc.UserOps = append(sc.UserOps, UserOp{Label: "create " + g.Names[i], Do: func(w *World) {
 				_, _ = w.TP("user", w.Mgmt).Create(o)
@@ -247,7 +253,7 @@ func GenOS(w *World, prof OSProfile) *Scenario {
 		}
 	}
 	if prof.Intruder != "" {
-		w.AddAgent(&IntruderAgent{G: g, Mode: prof.Intruder, Budget: 1 + s.Intn(6, "intruder-budget"), Finalize: prof.Finalizers, Targets: targets})
+		w.AddAgent(&IntruderAgent{G: g, Mode: prof.Intruder, Budget: 1 + s.Intn(6, "intruder-budget"), Finalize: prof.Finalizers, Targets: targets, DriftOnly: prof.DriftOnly})
 	}
 	w.AddAgent(wl)
 	if w.Host != nil {
